@@ -5,7 +5,7 @@ import asyncio
 
 import bellows.types as t
 import bellows.zigbee.application as app
-from bellows.exception import ControllerError, EzspError
+from bellows.exception import ControllerError, EzspError, InvalidCommandError
 
 from contracts import index as _index
 from pyvc.calls import ExtMethod
@@ -36,7 +36,10 @@ COUNTERS = ext_class("counters")
 COUNTERS.methods["__getitem__"] = ExtMethod("__getitem__", fn=_counters_getitem)
 STATE = ext_class("state", fields={"counters": T.ext(COUNTERS)}, stable_fields=("counters",))
 
-KEEPALIVE_FAILURES = [asyncio.TimeoutError, EzspError]
+# how a keep-alive command can fail "by timeout or EZSP error": the command timeout, the stopped / failed layer
+# (EzspError) and the NCP answering with an invalidCommand frame (InvalidCommandError, set on the command's future by
+# ProtocolHandler.__call__) -- all of them EZSP-level failures in the property's sense, whatever their class hierarchy
+KEEPALIVE_FAILURES = [asyncio.TimeoutError, EzspError, InvalidCommandError]
 
 
 def _counters_answer(I, s, a, k):
@@ -76,7 +79,7 @@ def awaits_of(fx):
 
 def keepalive_failed(fx):
     """some keep-alive command of this feed ended in a timeout or an EZSP error"""
-    return any(r[2] in ("exception:TimeoutError", "exception:EzspError") for r in awaits_of(fx))
+    return any(r[2] in ("exception:TimeoutError", "exception:EzspError", "exception:InvalidCommandError") for r in awaits_of(fx))
 
 
 def commands(fx):
